@@ -111,6 +111,12 @@ public:
         return *this;
     }
     constexpr TensorMap(const TensorMap<T,Rest...>&) = default;
+    // Assigning a number fills the mapped buffer, as it does for a Tensor
+    template<typename U=T, enable_if_t_<is_primitive_v_<U>,bool> = false>
+    FASTOR_INLINE TensorMap<T,Rest...>& operator=(U num) {
+        assign(*this, num);
+        return *this;
+    }
 
     // AbstractTensor and scalar in-place operators
     //----------------------------------------------------------------------------------------------------------//
